@@ -193,3 +193,22 @@ def c17(ctx):
                     assumptions=["TLC/SANY and the JVM", "whether a packet rejected for lack of payload is listed by Packets() is left open (the property does not fix it)",
                                  "the library returns the same error for 'just completed' and 'already complete'; the harness tells them apart by the call order it issued",
                                  "payload extraction of well-formed packets per ISO 13818-1 (TsHeader + adaptation_field_length)"])
+
+
+# ---------------------------------------------------------------- C18
+
+@prop("C18", "Trace_C18")
+def c18(ctx):
+    thorough = ctx.tier == "thorough"
+    V.mc(ctx, "MC_C18", cfg="MC_C18_thorough.cfg" if thorough else "MC_C18.cfg")
+    summ = V.gen_traces(ctx, shards=8)
+    V.validate(ctx, "Trace_C18", summ, V.default_sig)
+    return V.finish(ctx, "model_checking",
+                    rule="MC (scaled packet size 3): every fragmentation of streams up to 7 (10) bytes into reader results (chunk sizes 0..4 (5), EOF or failure attached to any result, "
+                         "data returned with the error) x failing write position 0..3: the read loop state machine delivers exactly ExpectReadFrom. "
+                         "B3: the four real adapters (IOWriter, IOWriteCloser, PacketWriterFunc, NopCloser) on slices of 0..4 packets (+ partial tails) with a failing packet write at k, "
+                         "and ReadFrom over scripted readers (whole packets, 1..3 bytes, one byte, 187/189/94/376, random, through bufio, data+EOF, failure with/without data); TLC checks "
+                         "the recorded deliveries (all 188 bytes of each), result class and count. class = (op, adapter, shape, result)",
+                    trace_module="Trace_C18", sigfn=V.default_sig,
+                    assumptions=["TLC/SANY and the JVM", "a failing WritePacket returns (0, err); short packet writes (n<188, nil) are not part of the property",
+                                 "readers never return (0, nil)"])
